@@ -4,6 +4,7 @@ import PdfModel.Lemmas.ContentF32
 import PdfModel.Lemmas.ContentInline
 import PdfModel.Lemmas.ContentBytesCompose
 import PdfModel.Lemmas.ContentBytesInst
+import PdfModel.Lemmas.ContentBytesParts
 
 /-!
 # C08 — content-stream operators round-trip and mean what the operator table says
@@ -277,50 +278,64 @@ theorem parse_serialize_bytes (laws : RealLaws ro) (env : PdfLex.Env R) (hd : en
   rw [parse_any_spelling ro env hd o ho allow toks' bytes (by simpa using h3 [] Gap.nil) h4 hsz]
   exact h6
 
+/-- **A `/Contents` array.**  When every part is written by `serialize_ops`, `Content::operations` — the data of
+    the parts joined with a line feed after each (the separator added by a `fix:` commit of this package), read by
+    the byte-level loop — returns the concatenation of the parts' operations, with numeric equality on reals.  The
+    line feed is what keeps the last token of a part and the first token of the next apart (`spellsToks_join`). -/
+theorem parse_contents_parts (laws : RealLaws ro) (env : PdfLex.Env R) (hd : env.decrypt = none)
+    (fmt : R → List UInt8) (fl : FmtLaws ro fmt env.parseReal) (o : Oracle) (ho : EofFacts o) (allow : Bool)
+    (parts : List (List (Op R))) (hv : ∀ p ∈ parts, ∀ op ∈ p, OpV ro op) :
+    ∃ bs, serializeParts ro fmt parts = .ok bs ∧
+      ((joinParts bs).length ≤ 2147483647 →
+        ∃ ops', parseBytes ro env o allow (joinParts bs) = .ok ops' ∧ opsEquiv ro ops' parts.flatten = true) := by
+  obtain ⟨toks, bs, st', new, h1, h2, h3, h4, h5, h6⟩ :=
+    parts_spell ro fmt env.parseReal laws fl allow parts hv (initState ro)
+  refine ⟨bs, h1, fun hsz => ⟨new, ?_, h6⟩⟩
+  rw [parse_any_spelling ro env hd o ho allow toks (joinParts bs) (by simpa using h2 [] Gap.nil) h3 hsz]
+  unfold parseOps
+  rw [h4]
+  simp [h5, initState]
+
 end
 
 -- ---------------------------------------------------------------------------------------------------
--- byte level of the inline-image construct: where the image data ends (open finding)
+-- byte level of the inline-image construct: where the image data ends
 
 open ContentInline in
 /-- Full statement for the end of inline image data: after `ID` and one white-space byte, image data without an
-    `E I` pair, followed by *any* white-space byte, `EI` and then white-space or the end of the stream, is cut
-    out exactly, and reading goes on after `EI`. -/
+    `E I` pair, followed by *any* white-space byte, `EI` and then a token boundary (white-space, a delimiter or the
+    end of the stream), is cut out exactly, and reading goes on after `EI`. -/
 def C08_inline_full : Prop :=
   ∀ (w0 w : UInt8) (data tail : List UInt8), isWs w0 = true → isWs w = true →
-    noEI (w0 :: data) = true → (tail = [] ∨ ∃ t ts, tail = t :: ts ∧ isWs t = true) →
+    noEI (w0 :: data) = true → endsToken tail = true →
     inlineData (w0 :: data ++ w :: 69 :: 73 :: tail) = some (data, tail)
 
 open ContentInline in
-/-- What holds of `inline_image`: the statement with the white-space before `EI` restricted to LF
-    (decidable side condition `w = 10`); any first byte after `ID`, any `tail`. -/
-theorem inline_terminator_partial (w0 : UInt8) (data tail : List UInt8)
-    (h : noEI (w0 :: data) = true) :
-    inlineData (w0 :: data ++ 10 :: 69 :: 73 :: tail) = some (data, tail) := by
-  have hf := findLfEI_append (w0 :: data) tail h
+/-- **The end of inline image data, full strength** (after the `fix:` commit that replaced the search for the
+    bytes LF `E` `I`; the former counter-example `ID A EI Q` is the example below).  This closes the finding
+    `inline-image:EI-not-after-LF`. -/
+theorem inline_terminator_full : C08_inline_full := by
+  intro w0 w data tail _ hw h ht
+  have hf := findEI_append (w0 :: data) tail w hw ht h
   unfold inlineData
   simp only [List.cons_append] at hf ⊢
   rw [hf]
-  have hlen : (w0 :: data).length ≠ 0 := by simp
-  simp only [hlen, if_false, List.length_cons]
-  have h1 : List.take (data.length + 1) (w0 :: (data ++ 10 :: 69 :: 73 :: tail)) = w0 :: data := by
-    simp [List.take_append_of_le_length]
-  have h2 : List.drop (data.length + 1 + 3) (w0 :: (data ++ 10 :: 69 :: 73 :: tail)) = tail := by
-    have : data.length + 1 + 3 = (w0 :: (data ++ [10, 69, 73])).length := by simp
+  simp only [List.length_cons]
+  have h1 : List.take (data.length + 1) (w0 :: (data ++ w :: 69 :: 73 :: tail)) = w0 :: data := by
+    simp
+  have h2 : List.drop (data.length + 1 + 3) (w0 :: (data ++ w :: 69 :: 73 :: tail)) = tail := by
+    have : data.length + 1 + 3 = (w0 :: (data ++ [w, 69, 73])).length := by simp
     rw [this]
-    have e : w0 :: (data ++ 10 :: 69 :: 73 :: tail) = (w0 :: (data ++ [10, 69, 73])) ++ tail := by simp
+    have e : w0 :: (data ++ w :: 69 :: 73 :: tail) = (w0 :: (data ++ [w, 69, 73])) ++ tail := by simp
     rw [e, List.drop_left]
   rw [h1, h2]
   rfl
 
 open ContentInline in
-/-- The code violates the full statement: `ID A EI Q` (space before `EI`) is not terminated at its `EI`
-    (known finding `inline-image:EI-not-after-LF`; the check replays this input on the implementation). -/
-theorem inline_terminator_counterexample : ¬ C08_inline_full := by
-  intro h
-  have := h 32 32 [65] [32, 81, 10] (by decide) (by decide) (by decide)
-    (Or.inr ⟨32, [81, 10], rfl, by decide⟩)
-  revert this
+/-- `ID A EI Q⏎` (space before `EI`): the data is `A`, reading goes on at ` Q⏎`; and `EI` inside a longer word
+    (`xEIy`) is not taken for the end -/
+example : inlineData [32, 65, 32, 69, 73, 32, 81, 10] = some ([65], [32, 81, 10]) ∧
+    inlineData [32, 65, 32, 69, 73, 121, 10, 69, 73] = some ([65, 32, 69, 73, 121], []) := by
   decide
 
 -- ---------------------------------------------------------------------------------------------------
